@@ -1,4 +1,5 @@
 import UtilModel.Routine.Props
+import UtilModel.Routine.Transfer
 open UtilModel UtilModel.Routine
 #print axioms UtilModel.accepts_sound
 #print axioms UtilModel.Routine.step_cur
@@ -15,3 +16,10 @@ open UtilModel UtilModel.Routine
 #print axioms UtilModel.Routine.C05l_obs
 #print axioms UtilModel.Routine.C05g_obs
 #print axioms UtilModel.Routine.C05_obs
+#print axioms UtilModel.Routine.C05a_accepted
+#print axioms UtilModel.Routine.C05b_accepted
+#print axioms UtilModel.Routine.C05l_accepted
+#print axioms UtilModel.Routine.C05g_accepted
+#print axioms UtilModel.Routine.C05_accepted
+#print axioms UtilModel.Routine.complete_routine
+#print axioms UtilModel.Routine.reject_sound_routine
